@@ -115,6 +115,25 @@ pub struct BlacklistConfig {
     pub mode: BlacklistMode,
 }
 
+impl BlacklistConfig {
+    /// Returns `true` if the address is on the blacklist.
+    ///
+    /// A server listening on `[::]` sees its IPv4 clients as IPv4-mapped IPv6 addresses
+    ///   (`::ffff:a.b.c.d`), so such an address is compared in its IPv4 form as well.
+    pub fn contains(&self, address: &IpAddr) -> bool {
+        if self.list.contains(address) {
+            return true;
+        }
+
+        match address {
+            IpAddr::V6(v6) => v6
+                .to_ipv4_mapped()
+                .map_or(false, |v4| self.list.contains(&IpAddr::V4(v4))),
+            IpAddr::V4(_) => false,
+        }
+    }
+}
+
 /// Represents configuration for TLS.
 #[cfg(feature = "tls")]
 #[derive(Clone, Debug, PartialEq, Eq)]
